@@ -63,7 +63,7 @@ Definition nsi_local_soffer_clustering : expr :=
   Div (tri 0) (Sum (Mul (Min2 (K 1) (K 0)) (Adj 0 1))).
 (* A+_{ij} (A+ Dw A+)_{ij} / max(k_i,k_j) *)
 Definition nsi_twinness : expr :=
-  Div (Mul (Adj 0 1) (Sum (Mul (Adj 1 0) (Adj 0 2)))) (Max2 (K 0) (K 1)).
+  Div (Mul (Adj 0 1) (Sum (Mul (Adj 1 0) (Adj 0 2)))) (Max2 (K 1) (K 0)).   (* np.maximum(kk, kk.T), kk[i][j] = k[j] *)
 
 (* directed motif clusterings; x = A+ Dw, xT = A+^T Dw, C = diag(.)/(w T) *)
 Definition motif (e1 e2 e3 : expr) (den : expr) : expr :=
@@ -99,10 +99,10 @@ Definition nsi_local_midmotif_clustering_corrected (tw : Qc) : expr :=
   motif_corrected tw (Adj 2 1) (Adj 0 1) (Adj 0 2) (Mul ki ko) (Add ki ko).
 Definition nsi_local_inmotif_clustering_corrected (tw : Qc) : expr :=
   let ki := correct tw (Kin 0) in
-  motif_corrected tw (Adj 1 2) (Adj 1 0) (Adj 0 2) (Sq ki) (Mul (Const (qnat 2)) ki).
+  motif_corrected tw (Adj 1 2) (Adj 1 0) (Adj 0 2) (Sq ki) (Mul ki (Const (qnat 2))).
 Definition nsi_local_outmotif_clustering_corrected (tw : Qc) : expr :=
   let ko := correct tw (Kout 0) in
-  motif_corrected tw (Adj 2 1) (Adj 1 0) (Adj 2 0) (Sq ko) (Mul (Const (qnat 2)) ko).
+  motif_corrected tw (Adj 2 1) (Adj 1 0) (Adj 2 0) (Sq ko) (Mul ko (Const (qnat 2))).
 
 (* ---- distance based (B = search bound; B >= N gives true distances) ----- *)
 (* first k i j = 1 iff j is first reached from i after exactly k+1 steps of A+ *)
